@@ -1297,7 +1297,10 @@ As a workaround use x.as_expr() %s y.as_expr()""" % op)
 
         # For phasor comparisons...
         # FIXME, remove phasor stuff?
-        if self.is_phasor_ratio_domain and x.is_angular_fourier_domain:
+        if (self.quantity != x.quantity
+                and 'undefined' not in (self.quantity, x.quantity)):
+            pass
+        elif self.is_phasor_ratio_domain and x.is_angular_fourier_domain:
             return cls, self, cls(x), assumptions
         elif self.is_angular_fourier_domain and x.is_phasor_ratio_domain:
             return xcls, cls(self), x, assumptions
